@@ -91,19 +91,23 @@ def shape : Token → Token
 /-! ## Renderings of named tokens as strings -/
 
 /-- A name usable both as a binder and as a variable: non-empty, the first code point alphabetic and
-not a lambda glyph, the others alphanumeric, none of them whitespace, a parenthesis or the dot. -/
+not a lambda glyph, the others alphanumeric, none of them whitespace, a parenthesis, the dot or a
+backslash (the ASCII lambda glyph ends a variable name). -/
 def WfName (cls : CharCls) (n : Name) : Prop :=
   (∃ c cs, n = c :: cs ∧ cls.isAlpha c = true ∧ isLam c = false ∧ ∀ d ∈ cs, cls.isAlnum d = true) ∧
-  ∀ d ∈ n, cls.isWs d = false ∧ d ≠ cLparen ∧ d ≠ cRparen ∧ d ≠ cDot
+  ∀ d ∈ n, cls.isWs d = false ∧ d ≠ cLparen ∧ d ≠ cRparen ∧ d ≠ cDot ∧ d ≠ cBackslash
 
-/-- what may follow a variable name: the end of the input, whitespace or a parenthesis -/
+/-- what may follow a variable name: the end of the input, whitespace, a parenthesis or a backslash
+(the ASCII lambda glyph, which then starts a binder: `x\y.y` is `x`, `\y.`, `y`) -/
 def NameEnd (cls : CharCls) : List Nat → Prop
   | [] => True
-  | c :: _ => cls.isWs c = true ∨ c = cLparen ∨ c = cRparen
+  | c :: _ => cls.isWs c = true ∨ c = cLparen ∨ c = cRparen ∨ c = cBackslash
 
 /-- `Renders cls cts s`: the string `s` is a rendering of the named tokens `cts`.
 Arbitrary whitespace may surround tokens; a binder is `glyph ++ name ++ "."` with either glyph;
-a variable name must be followed by whitespace, a parenthesis or the end of the input. -/
+a variable name must be followed by whitespace, a parenthesis, a backslash (necessarily the glyph of
+a binder, since whitespace is not a glyph and no other token starts with a backslash) or the end of
+the input.  The other glyph `λ` is a letter and would continue the name, so it needs a separator. -/
 inductive Renders (cls : CharCls) : List CToken → List Nat → Prop
   | nil : Renders cls [] []
   | ws {c cts s} : cls.isWs c = true → Renders cls cts s → Renders cls cts (c :: s)
@@ -120,7 +124,9 @@ def ClsOk (cls : CharCls) : Prop :=
   ∀ c, cls.isWs c = true → isLam c = false ∧ c ≠ cLparen ∧ c ≠ cRparen
 
 /-- the last character of `s` (if any) is whitespace, a parenthesis or a dot: after a rendering
-with this property the lexer is back at top level (not inside a name) -/
+with this property the lexer is back at top level (not inside a name).  (The backslash, although it
+ends a name, is no alternative here: after it the lexer is inside a binder, and no rendering ends
+with a backslash since a binder ends with its dot.) -/
 def EndsTop (cls : CharCls) (s : List Nat) : Prop :=
   ∀ c, s.getLast? = some c → cls.isWs c = true ∨ c = cLparen ∨ c = cRparen ∨ c = cDot
 
